@@ -521,9 +521,23 @@ def gen_overlap_block(rnd):
         d = rnd.choice([1, 31, 32, 33, 30, 63, 64, 0, -1, -31, -32, -33])
         y = max(0, x + d)
         extra = 0
+        sym = rnd.random() < 0.25       # one of the accesses uses an address from the stack (may alias anything)
         for _ in range(rnd.randrange(3, 7)):
             a = rnd.choice([x, y, x, y, x + 1])
             k = rnd.random()
+            if sym and rnd.random() < 0.35:
+                d_ = "DUP%d" % (extra + 1 + rnd.randrange(nin))
+                if k < 0.5:
+                    out += [(d_, None), ("MLOAD", None)]
+                    extra += 1
+                    if rnd.random() < 0.4:
+                        out += [("DUP%d" % (int(d_[3:]) + 1), None), ("MSTORE", None)]
+                        extra -= 1
+                else:
+                    out += [("DUP%d" % (extra + 1 + rnd.randrange(nin)), None), ("DUP%d" % (int(d_[3:]) + 1), None), ("MSTORE", None)]
+                if extra + nin >= 13:
+                    break
+                continue
             val = [("DUP%d" % (extra + 1 + rnd.randrange(nin)), None)] if rnd.random() < 0.7 else [("PUSH", hexv(rand_const(rnd)))]
             if k < 0.3:
                 out += val + [("PUSH", hexv(a)), ("MSTORE", None)]
@@ -532,6 +546,17 @@ def gen_overlap_block(rnd):
             elif k < 0.85:
                 out += [("PUSH", hexv(a)), ("MLOAD", None)]
                 extra += 1
+                kk = rnd.random()
+                if kk < 0.12:
+                    # the loaded value is written back where it came from: the store is a no-op and the load dies with it
+                    out += [("PUSH", hexv(a)), ("MSTORE", None)]
+                    extra -= 1
+                elif kk < 0.3:
+                    # the loaded value only feeds a term that a rule folds away: the load becomes dead after the rules
+                    out += rnd.choice([[("PUSH", "0"), ("MUL", None)], [("DUP1", None), ("XOR", None)], [("PUSH", "0"), ("AND", None)],
+                                       [("DUP1", None), ("SUB", None)], [("POP", None)]])
+                    if out[-1][0] == "POP":
+                        extra -= 1
             else:
                 n = rnd.choice([1, 31, 32, 33, 64, abs(d) or 32, abs(d) + 1])
                 out += [("PUSH", hexv(n)), ("PUSH", hexv(a)), ("KECCAK256", None)]
